@@ -79,6 +79,7 @@ static Step make_step(const std::string &op, Rng &r, bool utils_keys = false) {
     if (op == "q_key") return mk(op, {R(r), R(r), R(r)}, {key()});
     if (op == "dup" || op == "dupcheck") return mk(op, {R(r), R(r), R(r)});
     if (op == "delete") return mk(op, {R(r)});
+    if (op == "rebuild") return mk(op, {R(r)});
     if (op == "refuse") return mk(op, {R(r), R(r), R(r), R(r), R(r)}, {key()});
     if (op == "parse") return mk(op, {R(r), R(r), R(r), R(r)});
     if (op == "print") return mk(op, {R(r), R(r), R(r), R(r), R(r)});
@@ -230,6 +231,10 @@ Plan gen_plan(const std::string &prop, uint64_t seed, int64_t run) {
         g_casekeys = p.knobs["profile"] == 6;
         p.steps.push_back(make_step("parse", r));
         if (r.chance(1, 3)) p.steps.push_back(make_step("parse", r));
+        else if (r.chance(1, 4)) {   // the same value, assembled through the constructors: equal documents of different provenance
+            Step d = make_step("rebuild", r); d.a[0] = 0; p.steps.push_back(d);
+            if (r.chance(1, 2)) add_steps(p, swarm(cat({EDIT, {{"addh", 6}, {"delete_key", 4}, {"set_number", 2}, {"nudge_number", 6}}}), r), r, len_range(r, 1, 3), true);
+        }
         else { Step d = make_step("dup", r); d.a[0] = 0; d.a[1] = 0; d.a[2] = 1; p.steps.push_back(d); add_steps(p, swarm(cat({EDIT, {{"addh", 6}, {"delete_key", 4}, {"delete_idx", 3}, {"set_number", 2}, {"nudge_number", 6}, {"set_valuestring", 2}}}), r), r, len_range(r, 1, 6), true); }
         p.steps.push_back(make_step("patch_gen", r));
         add_steps(p, cat({EDIT, QUERY, {{"print", 2}, {"addh", 6}, {"add_obj", 4}}}), r, len_range(r, 3, 15), true);
@@ -240,7 +245,8 @@ Plan gen_plan(const std::string &prop, uint64_t seed, int64_t run) {
         g_casekeys = prof >= 2;
         auto mixm = std::vector<W>{{"merge_apply", 3}, {"merge_gen", 3}, {"parse", 3}, {"dup", 1}, {"addh", 2}, {"delete_key", 1}, {"set_number", 1}};
         add_steps(p, {{"parse", 1}}, r, 2);
-        if (r.chance(1, 2)) { Step d = make_step("dup", r); d.a[2] = 1; p.steps.push_back(d); add_steps(p, cat({EDIT, {{"addh", 6}, {"delete_key", 4}, {"nudge_number", 8}}}), r, len_range(r, 1, 5), true); }
+        if (r.chance(1, 5)) { Step d = make_step("rebuild", r); p.steps.push_back(d); if (r.chance(1, 2)) add_steps(p, cat({EDIT, {{"addh", 6}, {"delete_key", 4}, {"nudge_number", 8}}}), r, len_range(r, 1, 3), true); }
+        else if (r.chance(1, 2)) { Step d = make_step("dup", r); d.a[2] = 1; p.steps.push_back(d); add_steps(p, cat({EDIT, {{"addh", 6}, {"delete_key", 4}, {"nudge_number", 8}}}), r, len_range(r, 1, 5), true); }
         add_steps(p, mixm, r, len_range(r, 2, 8), true);
         add_steps(p, cat({EDIT, QUERY, {{"print", 2}, {"addh", 6}, {"merge_gen", 3}, {"merge_apply", 2}}}), r, len_range(r, 3, 12), true);
     } else if (prop == "C19") {
